@@ -318,6 +318,10 @@ fn field_ops(spec: &FieldSpec, depth: Depth, tier: Tier, seed: u64) -> Vec<FOp> 
     } else {
         vec![Cons::Expose, Cons::MulZ, Cons::IsEqualZ]
     };
+    if depth == Depth::Full {
+        // two limb-wise multiplications in a row: the limb bound jumps over max_limb_bound
+        v.push(Chain(vec![Step::MulC(thr.clone()), Step::MulC(thr.clone())], Cons::Expose));
+    }
     for (ci, ch) in chains.iter().enumerate() {
         for (ki, cons) in consumers.iter().enumerate() {
             // quick: every chain meets every consumer class, but not the full product
@@ -686,7 +690,7 @@ fn main() {
     selfcheck_big(&mut cx);
 
     // ---- cases
-    let configs: Vec<(u8, u8)> = if tier.is_thorough() { vec![(4, 8), (1, 8), (2, 11), (3, 16)] } else { vec![(4, 8)] };
+    let configs: Vec<(u8, u8)> = if tier.is_thorough() { vec![(4, 8), (1, 8), (4, 8), (2, 9), (4, 8), (3, 10)] } else { vec![(4, 8)] };
     let mut cases: Vec<(String, Case)> = vec![];
     let flds: Vec<(Fld, Depth)> = if tier.is_thorough() {
         vec![(Fld::SecpBase, Depth::Full), (Fld::SecpScalar, Depth::Full), (Fld::BlsBase, Depth::Full)]
@@ -805,7 +809,7 @@ fn main() {
             }
             Err(p) => {
                 o.count("k-panic", 1);
-                o.viol(Viol::new(format!("{}:sizing-panic:{}", c.op(), vcore::panic_site(&p)), format!("building the circuit without witnesses panicked: {p}"), json!({"op": c.opkey()})));
+                o.viol(Viol::new(format!("{}:sizing-panic", c.op()), format!("building the circuit without witnesses panicked: {p}"), json!({"op": c.opkey()})));
             }
         }
         o
@@ -1029,7 +1033,7 @@ fn main() {
     // Operand tuples: one per operation (two in thorough), taken a few steps down the diagonal so
     // that the operands are not 0/1/2 (which take the library's shortcuts). Quick sweeps one
     // variant per (field, operation name) (BigUint: two width variants per operation name).
-    let budget_runs: u64 = tier.pick(12_000, 1_000_000);
+    let budget_runs: u64 = tier.pick(16_000, 1_000_000);
     let mut chosen: Vec<(&String, &Case, &Hon)> = vec![];
     {
         let want = tier.pick(1usize, 2usize);
@@ -1061,7 +1065,17 @@ fn main() {
             if kof(v[0].1).unwrap() > 12 {
                 continue;
             }
-            let picks: Vec<usize> = if v.len() > 4 { vec![4, 1] } else { vec![v.len() - 1, 0] };
+            // prefer tuples whose integer operands are pairwise distinct and not 0/1/2
+            let nice = |c: &Case| {
+                let us: Vec<&BigUint> = c.ins.iter().filter_map(|v| if let V::U(x) = v { Some(x) } else { None }).collect();
+                us.iter().all(|x| **x > bu(2)) && (0..us.len()).all(|i| (0..i).all(|j| us[i] != us[j]))
+            };
+            let mut picks: Vec<usize> = (0..v.len()).filter(|i| nice(v[*i].1)).collect();
+            if picks.len() > 3 {
+                // not the first nice one either: take the 2nd and the last
+                picks = vec![picks[1], picks[picks.len() - 1]];
+            }
+            picks.extend(if v.len() > 4 { vec![4, 1] } else { vec![v.len() - 1, 0] });
             let mut taken = 0;
             for p in picks {
                 if taken < want && !chosen.iter().any(|(k, _, _)| *k == v[p].0) {
@@ -1192,10 +1206,10 @@ fn main() {
          2^(L(n-1)), 2^L-1, 2^L, 2^L+1, 2^wf-m, seeded}} (diagonals in quick, full product for arity<=2 in thorough); BigUint gadget (assign, add, sub, mul, \
          div_rem, mod_exp n in {{0,1,2,3,65537}}, lower_than, (in)equality tests/assertions incl. different limb counts and constants, select, to/from \
          bits/bytes) x widths {{1,8,95,96,97,192,193{}}} x values {{0,1,2^w-1,2^(w-1),2^96-1,2^96,2^96+1,2^192-1,2^192,2^192+1,seeded}}; per case: honest run \
-         (satisfiable with the reference result recomputed from the decoded exposed inputs, or unsatisfiable if out of domain), every single-position \
-         edit of the exposed vector, every exposed value changed with its copy cycle; per operation: advice-assignment indices (stride {} inside the \
-         operation) x faults {{{}, +-2^LOG2_BASE}} in propagate mode; every non-empty subset of the inputs given in their second (+m) well-formed representation, injected consistently with the range checks (secp256k1 fields); all \
-         pairs x {{+1,zero}}^2 for operations with few assignments. A case is one (field|biguint, operation, parameters, inputs, configuration); \
+         (satisfiable with the reference result recomputed from the decoded exposed inputs, or unsatisfiable if out of domain); per operation \
+         (selected operand tuples): every single-position edit of the exposed vector, every exposed value changed with its copy cycle, \
+         advice-assignment indices (stride {} inside the operation) x faults {{{}, +-2^LOG2_BASE}} in propagate mode; every non-empty subset of the inputs given in their second (+m) well-formed representation, injected consistently with the range checks (secp256k1 fields); all \
+         pairs of the operation's own assignments x {{+1,zero}}^2 for operations with few assignments. A case is one (field|biguint, operation, parameters, inputs, configuration); \
          evaluations count MockProver verdicts.",
         if tier.is_thorough() { ",1024,2048" } else { "" },
         stride,
